@@ -210,7 +210,9 @@ def flow_part(ctx):
     root = os.path.join(vlib.BUILD, "scratch", "c09-%d" % os.getpid())
     shutil.rmtree(root, ignore_errors=True)
     scs = [{"idx": 0, "n": 3, "period_s": 2, "nonce_on_get": False, "retry": True},
-           {"idx": 1, "n": 2, "period_s": 1, "nonce_on_get": True, "retry": False}]
+           {"idx": 1, "n": 2, "period_s": 1, "nonce_on_get": True, "retry": False},
+           # several certificates due at once on ONE endpoint: the limit is the endpoint's, not each certificate's
+           {"idx": 100, "n": 2, "period_s": 2, "nonce_on_get": False, "retry": False, "ncerts": 3}]
     if not ctx.quick():
         scs += [{"idx": 2 + i, "n": ctx.rng.randint(1, 5), "period_s": ctx.rng.randint(1, 4),
                  "nonce_on_get": bool(i % 2), "retry": bool(i % 3)} for i in range(10)]
@@ -223,21 +225,25 @@ def flow_part(ctx):
                           "body": {"type": mockca.ERR + "serverInternal"}, "nonce": "none"}})
         cert = {"name": "crt", "identifiers": [{"dns": "a.example.org", "challenge": "http-01"},
                                                 {"dns": "b.example.org", "challenge": "dns-01"}], "key_type": "ecdsa_p256"}
+        certs = [cert]
+        if sc.get("ncerts", 1) > 1:
+            certs = [{"name": "crt%d" % k, "identifiers": [{"dns": "c%d.example.org" % k, "challenge": "http-01"}],
+                      "key_type": "ecdsa_p256"} for k in range(sc["ncerts"])]
         ca = mockca.MockCA(helper, rules=rules, opts={"nonce_on_get": sc["nonce_on_get"], "polls_before_valid": 2})
         ca.start()
         os.makedirs(d, exist_ok=True)
         import cfggen
-        cfg, log = flow.make_config(d, ca.base + "/directory", [cert],
+        cfg, log = flow.make_config(d, ca.base + "/directory", certs,
                                     rate_limits=[{"name": "rl", "number": sc["n"], "period": "%ds" % sc["period_s"]}])
         cfg["endpoint"][0]["rate_limits"] = ["rl"]
         cfg_path = cfggen.write(os.path.join(d, "acmed.toml"), cfg)
         dmn = flow.Daemon(cfg_path)
-        flow.wait_for(lambda: len(flow.post_ops(log)) >= 1 or not dmn.alive(), 120)
+        flow.wait_for(lambda: len(flow.post_ops(log)) >= len(certs) or not dmn.alive(), 150)
         dmn.stop()
         ca.stop()
         reqs = [e for e in ca.log if e["kind"] == "req"]
         return {"sc": sc, "arrivals": [e["t"] for e in reqs], "kinds": [e["rk"] for e in reqs],
-                "done": bool(flow.post_ops(log))}
+                "done": len(flow.post_ops(log)) >= len(certs)}
     try:
         with cf.ThreadPoolExecutor(max_workers=6) as ex:
             results = list(ex.map(run, scs))
